@@ -316,7 +316,23 @@ func hasCall(e string) bool {
 	return false
 }
 
-func pairCheck(pre []string, groups [][][]string) (string, string) {
+// sameOutcome compares two outcomes. In the negated-condition rewrites a
+// condition that is absent (nil) fails as the operand of the negation in one
+// spelling (nil error) and as the condition itself in the other (type error):
+// the description leaves that class open (the reference accepts both, see
+// ref.condNode), so the two classes count as the same failure there.
+func sameOutcome(a, b embOutcome, label string) bool {
+	if a == b {
+		return true
+	}
+	if strings.HasPrefix(label, "negated-") && a.out == b.out && a.val == b.val {
+		open := map[ref.ErrClass]bool{ref.ENil: true, ref.EType: true}
+		return open[a.err] && open[b.err]
+	}
+	return false
+}
+
+func pairCheck(pre []string, groups [][][]string, label string) (string, string) {
 	var base embOutcome
 	for i, grp := range groups {
 		got, internal := runEmbedding(pre, grp[0])
@@ -330,7 +346,7 @@ func pairCheck(pre []string, groups [][][]string) (string, string) {
 			base = got
 			continue
 		}
-		if got != base {
+		if !sameOutcome(got, base, label) {
 			return fmt.Sprintf("form 0: %v\n%s\nform %d: %v\n%s", base, strings.Join(groups[0][0], "\n"), i, got, strings.Join(grp[0], "\n")), ""
 		}
 	}
@@ -346,13 +362,13 @@ func c12Prop(rec *ev.Recorder) func(t *rapid.T) {
 		pre := g.Environment(rapid.IntRange(1, 4).Draw(t, "globals"), rapid.IntRange(0, 2).Draw(t, "funcs"))
 		if rapid.IntRange(0, 4).Draw(t, "what") == 0 {
 			groups, label := c12Pairs(t, g)
-			why, internal := pairCheck(pre, groups)
+			why, internal := pairCheck(pre, groups, label)
 			if internal != "" {
 				rec.Skip("pair: " + strings.SplitN(internal, ":", 2)[0])
 				return
 			}
 			if why != "" {
-				fail(t, "C12", "pair", map[string]any{"pre": pre, "groups": groups}, "%s: %s\n--- environment\n%s", label, why, strings.Join(pre, "\n"))
+				fail(t, "C12", "pair", map[string]any{"pre": pre, "groups": groups, "label": label}, "%s: %s\n--- environment\n%s", label, why, strings.Join(pre, "\n"))
 			}
 			rec.Case(label+"|"+fmt.Sprint(groups)+"|"+strings.Join(pre, "\n"), true, "pair:"+label)
 			return
@@ -419,9 +435,10 @@ func init() {
 			var v struct {
 				Pre    []string
 				Groups [][][]string
+				Label  string
 			}
 			mustJSON(c, &v)
-			why, _ := pairCheck(v.Pre, v.Groups)
+			why, _ := pairCheck(v.Pre, v.Groups, v.Label)
 			return why
 		}
 		return ""
